@@ -49,6 +49,7 @@ type Grant struct {
 	ViaPAR        bool
 	Creds         []*Cred
 	Unspec        bool // a fault made the grant's server-side state unknowable
+	Vague         bool // the statements do not pin down WHAT was granted (parameters added to a pushed request, ...): binding rules are not judged either
 	AuthTime      time.Time
 	ReqAt         time.Time
 	PresetIDExp   time.Time
@@ -145,6 +146,11 @@ func (l *Ledger) SelectFromEnd(sel int, kinds ...string) *Cred {
 // Expect answers: at instant now, must this credential be honoured, must it be refused, or is it unspecified?
 func (l *Ledger) Expect(c *Cred, now time.Time) (Expectation, []string) {
 	if c.Unspec || (c.G != nil && c.G.Unspec) {
+		// what faults or unspecified interactions did to the server-side state is unknowable - but nothing makes a credential
+		// outlive the lifetime it was issued with (C07 holds at every point of every history)
+		if c.Life > 0 && now.Sub(c.Issued) >= c.Life+Tol && (c.G == nil || !c.G.Vague) {
+			return MustNot, []string{"C07"}
+		}
 		return Unspec, nil
 	}
 	if c.State != Live {
